@@ -1,4 +1,596 @@
+//! C16 — proof metadata cannot weaken verification; serialization preserves the verdict.
+//!
+//! For a set of circuit proofs (honest proofs and proofs of INVALID traces produced with the
+//! H4 matrix-tamper hook, over three configurations incl. one with non-primitive tables)
+//! every alteration of one metadata leaf of the serialized `BatchStarkProof` (everything
+//! but the inner `proof`) to every other value of a small well-formed domain — and every
+//! pair of such alterations — is deserialised back and judged by the real
+//! `verify_all_tables`:
+//!   (a) no altered invalid-trace proof verifies,
+//!   (b) never a panic,
+//!   (c) metadata contradicting the verifier's field parameters (ext_degree, w_binomial,
+//!       quintic flag) is rejected,
+//!   (d) verify(deser(ser(p))) == verify(p) for JSON and postcard, for every proof of the set
+//!       and every altered proof that deserialises.
+
+use std::any::Any;
+use std::sync::atomic::{AtomicU64, Ordering};
+
+use p3_baby_bear::BabyBear;
+use p3_batch_stark::ProverData;
+use p3_circuit::ops::{Poseidon2Config, Poseidon2PermCall, generate_poseidon2_trace, generate_recompose_trace};
+use p3_circuit::{CircuitBuilder, ExprId};
+use p3_circuit_prover::batch_stark_prover::{BatchStarkProof, BatchStarkProver, CircuitProverData, TablePacking, poseidon2_air_builders, recompose_air_builders};
+use p3_circuit_prover::common::{NpoPreprocessor, get_airs_and_degrees_with_prep};
+use p3_circuit_prover::config::{BabyBearConfig, KoalaBearConfig};
+use p3_circuit_prover::{ConstraintProfile, Poseidon2Preprocessor, RecomposePreprocessor};
+use p3_field::extension::BinomialExtensionField;
+use p3_field::{BasedVectorSpace, PrimeCharacteristicRing};
+use p3_koala_bear::{KoalaBear, default_koalabear_poseidon2_16};
+use p3_matrix::dense::RowMajorMatrix;
+use p3_poseidon2_circuit_air::KoalaBearD4Width16;
+use vpcore::rayon::prelude::*;
+use vpcore::serde_json::{self, Value, json};
+use vpcore::{Ctx, Histo, Report, finish, quiet_catch};
+
+type BB = BabyBear;
+type BB4 = BinomialExtensionField<BB, 4>;
+type KB = KoalaBear;
+type KB4 = BinomialExtensionField<KB, 4>;
+
+#[derive(Clone, Debug, PartialEq, Eq)]
+enum Verdict {
+    Accept,
+    Reject(String),
+    Panic(String),
+    NotAProof,
+}
+impl Verdict {
+    fn tag(&self) -> String {
+        match self {
+            Verdict::Accept => "accept".into(),
+            Verdict::Reject(e) => format!("reject:{}", e.split(|c: char| !c.is_alphanumeric()).find(|w| !w.is_empty()).unwrap_or("")),
+            Verdict::Panic(_) => "panic".into(),
+            Verdict::NotAProof => "not_a_proof".into(),
+        }
+    }
+}
+
+struct Fixture {
+    name: &'static str,
+    /// serialized proofs: (label, json tree, invalid_trace?)
+    proofs: Vec<(String, Value, bool)>,
+    verify_json: Box<dyn Fn(&Value) -> Verdict + Send + Sync>,
+    /// verdict after a postcard round trip of the object deserialised from the JSON tree
+    verify_postcard: Box<dyn Fn(&Value) -> Verdict + Send + Sync>,
+}
+
+fn tamper_cell(table: usize, row: usize, col: usize) {
+    p3_circuit_prover::verif_hooks::set_matrix_tamper(Some(Box::new(move |any: &mut dyn Any| {
+        if let Some(ms) = any.downcast_mut::<Vec<RowMajorMatrix<BB>>>() {
+            if let Some(m) = ms.get_mut(table) {
+                let w = m.width;
+                if row * w + col < m.values.len() {
+                    m.values[row * w + col] += BB::ONE;
+                }
+            }
+        } else if let Some(ms) = any.downcast_mut::<Vec<RowMajorMatrix<KB>>>() {
+            if let Some(m) = ms.get_mut(table) {
+                let w = m.width;
+                if row * w + col < m.values.len() {
+                    m.values[row * w + col] += KB::ONE;
+                }
+            }
+        }
+    })));
+}
+fn clear_tamper() {
+    p3_circuit_prover::verif_hooks::set_matrix_tamper(None);
+}
+
+macro_rules! verdict_of {
+    ($r:expr) => {
+        match quiet_catch(|| $r) {
+            Ok(Ok(())) => Verdict::Accept,
+            Ok(Err(e)) => Verdict::Reject(e),
+            Err(p) => Verdict::Panic(p),
+        }
+    };
+}
+
+/// BabyBear, element field = base (D=1) or the degree-4 extension.
+fn bb_fixture<const EXT: bool>() -> Fixture {
+    type Proof = BatchStarkProof<BabyBearConfig>;
+    fn build_and_prove<EF, const D: usize>(tampers: &[(usize, usize, usize)]) -> Vec<(String, Value, bool)>
+    where
+        EF: p3_field::Field + p3_field::ExtensionField<BB> + BasedVectorSpace<BB> + p3_circuit_prover::field_params::ExtractBinomialW<BB> + core::hash::Hash,
+    {
+        let mut b = CircuitBuilder::<EF>::new();
+        let x = b.public_input();
+        let y = b.public_input();
+        let z = b.public_input();
+        let c3 = b.define_const(EF::from_u64(3));
+        let zero = b.define_const(EF::ZERO);
+        let s = b.add(x, y);
+        let m = b.mul(s, z);
+        let ma = b.mul_add(x, y, z);
+        let h1 = b.horner_acc_step(zero, x, y, z);
+        let h2 = b.horner_acc_step(h1, x, z, y);
+        let d = b.sub(m, c3);
+        let q = b.div(ma, c3);
+        let t = b.add(h2, d);
+        let u = b.add(t, q);
+        let e = b.public_input();
+        b.connect(u, e);
+        let bit = b.public_input();
+        b.assert_bool(bit);
+        let circuit = b.build().unwrap();
+        let (xv, yv, zv) = (EF::from_u64(2), EF::from_u64(5), EF::from_u64(7));
+        let three = EF::from_u64(3);
+        let h1v = yv - zv;
+        let h2v = h1v * xv + zv - yv;
+        let ev = h2v + ((xv + yv) * zv - three) + (xv * yv + zv) * three.inverse();
+        let packing = TablePacking::new(2, 2);
+        let mut out = vec![];
+        let mut all = vec![None];
+        all.extend(tampers.iter().copied().map(Some));
+        for t in all {
+            let mut r = circuit.runner();
+            r.set_public_inputs(&[xv, yv, zv, ev, EF::ONE]).unwrap();
+            let traces = r.run().unwrap();
+            let cfg = vpe1::accept::fast_baby_bear();
+            let (ad, prim, np) = get_airs_and_degrees_with_prep::<BabyBearConfig, _, D>(&circuit, &packing, &[], &[], ConstraintProfile::Standard).unwrap();
+            let (airs, degs): (Vec<_>, Vec<usize>) = ad.into_iter().unzip();
+            let pd = ProverData::from_airs_and_degrees(&cfg, &airs, &degs);
+            let cpd = CircuitProverData::new(pd, prim, np);
+            let prover = BatchStarkProver::new(cfg).with_table_packing(packing.clone());
+            if let Some((tb, row, col)) = t {
+                tamper_cell(tb, row, col);
+            }
+            let proof = quiet_catch(|| prover.prove_all_tables(&traces, &cpd));
+            clear_tamper();
+            if let Ok(Ok(p)) = proof {
+                let label = match t {
+                    None => "honest".to_string(),
+                    Some((tb, row, col)) => format!("invalid(table{tb},row{row},col{col})"),
+                };
+                out.push((label, serde_json::to_value(&p).unwrap(), t.is_some()));
+            }
+        }
+        out
+    }
+    let tampers = [(2usize, 1usize, 3usize), (2, 2, 0), (1, 0, 0), (0, 1, 0)];
+    let proofs = if EXT { build_and_prove::<BB4, 4>(&tampers) } else { build_and_prove::<BB, 1>(&tampers) };
+    let verify = move |p: &Proof| -> Result<(), String> {
+        let prover = BatchStarkProver::new(vpe1::accept::fast_baby_bear());
+        if EXT { prover.verify_all_tables::<BB4>(p).map_err(|e| format!("{e:?}")) } else { prover.verify_all_tables::<BB>(p).map_err(|e| format!("{e:?}")) }
+    };
+    Fixture {
+        name: if EXT { "babybear-d4-alu" } else { "babybear-d1-alu" },
+        proofs,
+        verify_json: Box::new(move |v| match serde_json::from_value::<Proof>(v.clone()) {
+            Err(_) => Verdict::NotAProof,
+            Ok(p) => verdict_of!(verify(&p)),
+        }),
+        verify_postcard: Box::new(move |v| match serde_json::from_value::<Proof>(v.clone()) {
+            Err(_) => Verdict::NotAProof,
+            Ok(p) => {
+                let bytes = match postcard::to_allocvec(&p) {
+                    Ok(b) => b,
+                    Err(e) => return Verdict::Reject(format!("postcard_ser:{e}")),
+                };
+                match postcard::from_bytes::<Proof>(&bytes) {
+                    Err(e) => Verdict::Reject(format!("postcard_de:{e}")),
+                    Ok(p2) => verdict_of!(verify(&p2)),
+                }
+            }
+        }),
+    }
+}
+
+/// KoalaBear D=4 with a Poseidon2 table and a recompose table.
+fn kb_npo_fixture() -> Fixture {
+    type Proof = BatchStarkProof<KoalaBearConfig>;
+    let perm = default_koalabear_poseidon2_16();
+    let mut b = CircuitBuilder::<KB4>::new();
+    b.enable_poseidon2_perm::<KoalaBearD4Width16, _>(generate_poseidon2_trace::<KB4, KoalaBearD4Width16>, perm);
+    b.enable_recompose::<KB>(generate_recompose_trace::<KB, KB4>);
+    let limbs: [ExprId; 4] = core::array::from_fn(|i| {
+        let coeffs: [KB; 4] = core::array::from_fn(|j| KB::from_u64((i * 4 + j + 1) as u64));
+        b.alloc_const(KB4::from_basis_coefficients_slice(&coeffs).unwrap(), "in")
+    });
+    let mut last: Vec<Option<ExprId>> = vec![None; 4];
+    for row in 0..2 {
+        let first = row == 0;
+        let is_last = row == 1;
+        let mut inputs: Vec<Option<ExprId>> = vec![None; 4];
+        if first {
+            for l in 0..4 {
+                inputs[l] = Some(limbs[l]);
+            }
+        }
+        let (_id, outs) = b
+            .add_poseidon2_perm(&Poseidon2PermCall {
+                config: Poseidon2Config::KOALA_BEAR_D4_W16,
+                new_start: first,
+                merkle_path: false,
+                mmcs_bit: None,
+                mmcs_bit2: None,
+                inputs,
+                out_ctl: vec![is_last, is_last],
+                return_all_outputs: false,
+                mmcs_index_sum: None,
+            })
+            .unwrap();
+        if is_last {
+            last = outs;
+        }
+    }
+    let s = b.add(last[0].unwrap(), last[1].unwrap());
+    let coeffs = b.decompose_ext_to_base_coeffs::<KB>(s).unwrap();
+    let r = b.recompose_base_coeffs_to_ext::<KB>(&coeffs).unwrap();
+    b.connect(r, s);
+    let p = b.public_input();
+    let _q = b.mul(p, r);
+    let circuit = b.build().unwrap();
+    let packing = TablePacking::new(2, 2);
+    let fast_cfg = || {
+        // repository KoalaBear configuration with test-grade FRI parameters
+        vpe1::accept::fast_koala_bear()
+    };
+    let mk_prover = move || {
+        let mut prover = BatchStarkProver::new(fast_cfg()).with_table_packing(TablePacking::new(2, 2));
+        prover.register_poseidon2_table::<4>(Poseidon2Config::KOALA_BEAR_D4_W16);
+        prover.register_recompose_table::<4>(false);
+        prover
+    };
+    let mut proofs = vec![];
+    for t in [None, Some((2usize, 1usize, 3usize)), Some((3, 0, 5)), Some((4, 0, 1)), Some((1, 0, 0))] {
+        let mut rn = circuit.runner();
+        rn.set_public_inputs(&[KB4::from_u64(9)]).unwrap();
+        let traces = rn.run().unwrap();
+        let npo_prep: Vec<Box<dyn NpoPreprocessor<KB>>> = vec![Box::new(Poseidon2Preprocessor), Box::new(RecomposePreprocessor::default())];
+        let mut air_builders = poseidon2_air_builders::<_, 4>();
+        air_builders.extend(recompose_air_builders(1, false));
+        let (ad, prim, np) = get_airs_and_degrees_with_prep::<KoalaBearConfig, _, 4>(&circuit, &packing, &npo_prep, &air_builders, ConstraintProfile::Standard).unwrap();
+        let (airs, degs): (Vec<_>, Vec<usize>) = ad.into_iter().unzip();
+        let cfg = fast_cfg();
+        let pd = ProverData::from_airs_and_degrees(&cfg, &airs, &degs);
+        let cpd = CircuitProverData::new(pd, prim, np);
+        let prover = mk_prover();
+        if let Some((tb, row, col)) = t {
+            tamper_cell(tb, row, col);
+        }
+        let proof = quiet_catch(|| prover.prove_all_tables(&traces, &cpd));
+        clear_tamper();
+        if let Ok(Ok(p)) = proof {
+            let label = match t {
+                None => "honest".to_string(),
+                Some((tb, row, col)) => format!("invalid(table{tb},row{row},col{col})"),
+            };
+            proofs.push((label, serde_json::to_value(&p).unwrap(), t.is_some()));
+        }
+    }
+    let verify = move |p: &Proof| -> Result<(), String> { mk_prover().verify_all_tables::<KB4>(p).map_err(|e| format!("{e:?}")) };
+    Fixture {
+        name: "koalabear-d4-poseidon2-recompose",
+        proofs,
+        verify_json: Box::new(move |v| match serde_json::from_value::<Proof>(v.clone()) {
+            Err(_) => Verdict::NotAProof,
+            Ok(p) => verdict_of!(verify(&p)),
+        }),
+        verify_postcard: Box::new(move |v| match serde_json::from_value::<Proof>(v.clone()) {
+            Err(_) => Verdict::NotAProof,
+            Ok(p) => {
+                let bytes = match postcard::to_allocvec(&p) {
+                    Ok(b) => b,
+                    Err(e) => return Verdict::Reject(format!("postcard_ser:{e}")),
+                };
+                match postcard::from_bytes::<Proof>(&bytes) {
+                    Err(e) => Verdict::Reject(format!("postcard_de:{e}")),
+                    Ok(p2) => verdict_of!(verify(&p2)),
+                }
+            }
+        }),
+    }
+}
+
+// ---------------------------------------------------------------------------------------
+// metadata alterations on the JSON tree
+
+#[derive(Clone, Debug)]
+struct Alt {
+    /// JSON pointer of the altered node
+    path: String,
+    /// path with array indices abstracted
+    class: String,
+    /// new value
+    value: Value,
+    /// "set" | "array-drop" | "array-dup" | "array-swap"
+    kind: &'static str,
+}
+
+fn class_of(path: &str) -> String {
+    path.split('/').map(|s| if s.chars().all(|c| c.is_ascii_digit()) && !s.is_empty() { "*" } else { s }).collect::<Vec<_>>().join("/")
+}
+
+fn collect_alts(node: &Value, path: String, strings: &[String], out: &mut Vec<Alt>) {
+    let mk = |p: &str, v: Value, k: &'static str| Alt { path: p.to_string(), class: class_of(p), value: v, kind: k };
+    match node {
+        Value::Number(n) => {
+            if let Some(x) = n.as_u64() {
+                let mut cands: Vec<u64> = vec![0, 1, 2, 3, 4, 5, 6, 8, 16, x + 1, x.saturating_sub(1), x * 2];
+                cands.sort();
+                cands.dedup();
+                for c in cands {
+                    if c != x {
+                        out.push(mk(&path, json!(c), "set"));
+                    }
+                }
+                out.push(mk(&path, Value::Null, "set"));
+            }
+        }
+        Value::Bool(b) => out.push(mk(&path, json!(!b), "set")),
+        Value::Null => {
+            out.push(mk(&path, json!(11), "set"));
+            out.push(mk(&path, json!(0), "set"));
+        }
+        Value::String(s) => {
+            for o in strings {
+                if o != s {
+                    out.push(mk(&path, json!(o), "set"));
+                }
+            }
+        }
+        Value::Array(a) => {
+            // structural alterations of lists of tables / instances (not of digests)
+            let is_words = a.iter().all(|x| x.is_number());
+            if !is_words && !a.is_empty() {
+                for i in 0..a.len() {
+                    let mut d = a.clone();
+                    d.remove(i);
+                    out.push(mk(&path, Value::Array(d), "array-drop"));
+                    let mut d = a.clone();
+                    d.insert(i, a[i].clone());
+                    out.push(mk(&path, Value::Array(d), "array-dup"));
+                    if i + 1 < a.len() {
+                        let mut d = a.clone();
+                        d.swap(i, i + 1);
+                        out.push(mk(&path, Value::Array(d), "array-swap"));
+                    }
+                }
+            }
+            for (i, c) in a.iter().enumerate() {
+                // digests: first and last word only
+                if is_words && a.len() > 2 && i != 0 && i != a.len() - 1 {
+                    continue;
+                }
+                collect_alts(c, format!("{path}/{i}"), strings, out);
+            }
+        }
+        Value::Object(m) => {
+            for (k, c) in m {
+                collect_alts(c, format!("{path}/{k}"), strings, out);
+            }
+        }
+    }
+}
+
+fn collect_strings(node: &Value, out: &mut Vec<String>) {
+    match node {
+        Value::String(s) => out.push(s.clone()),
+        Value::Array(a) => a.iter().for_each(|c| collect_strings(c, out)),
+        Value::Object(m) => m.values().for_each(|c| collect_strings(c, out)),
+        _ => {}
+    }
+}
+
+fn apply(tree: &Value, alts: &[&Alt]) -> Option<Value> {
+    let mut t = tree.clone();
+    for a in alts {
+        *t.pointer_mut(&a.path)? = a.value.clone();
+    }
+    Some(t)
+}
+
+fn metadata_alts(tree: &Value) -> Vec<Alt> {
+    let mut strings = vec!["Baseline".to_string(), "Optimized".to_string()];
+    let Value::Object(m) = tree else { return vec![] };
+    for (k, c) in m {
+        if k != "proof" {
+            collect_strings(c, &mut strings);
+        }
+    }
+    strings.sort();
+    strings.dedup();
+    let mut out = vec![];
+    for (k, c) in m {
+        if k != "proof" {
+            collect_alts(c, format!("/{k}"), &strings, &mut out);
+        }
+    }
+    out
+}
+
+fn is_field_param(path: &str) -> bool {
+    path == "/ext_degree" || path == "/w_binomial" || path == "/alu_quintic_trinomial"
+}
+
 fn main() {
-    eprintln!("MACHINERY-ERROR: check c16 not built yet");
-    std::process::exit(2);
+    vpcore::install_quiet_panic_hook();
+    let ctx = Ctx::from_args("C16", "fault_enumeration");
+    let report = Report::new();
+    let histo = Histo::new();
+    let panics = Histo::new();
+
+    let mut fixtures = vec![bb_fixture::<false>(), kb_npo_fixture()];
+    if !ctx.quick() {
+        fixtures.push(bb_fixture::<true>());
+    }
+    if let Some(path) = &ctx.replay {
+        let r = vpcore::load_replay(path);
+        let fx = fixtures.iter().find(|f| f.name == r["fixture"].as_str().unwrap_or("")).unwrap_or_else(|| vpcore::machinery_error("unknown fixture in replay"));
+        let label = r["proof"].as_str().unwrap_or("honest");
+        let (_, tree, _) = fx.proofs.iter().find(|p| p.0 == label).unwrap_or_else(|| vpcore::machinery_error("unknown proof label"));
+        let alts: Vec<Alt> = r["alterations"].as_array().cloned().unwrap_or_default().iter().map(|a| Alt { path: a["path"].as_str().unwrap().to_string(), class: String::new(), value: a["value"].clone(), kind: "set" }).collect();
+        let refs: Vec<&Alt> = alts.iter().collect();
+        let t = apply(tree, &refs).unwrap();
+        let v = (fx.verify_json)(&t);
+        println!("replay {} {} {:?} -> {:?}", fx.name, label, r["alterations"], v);
+        if v == Verdict::Accept && label != "honest" {
+            report.violation("replay:invalid_trace_accepted", "accepted", r.clone());
+        }
+        let cov = json!({"evaluations":1,"distinct_nontrivial":2,"rule":"replay","samples":[r]});
+        finish(&ctx, cov, vec![], &report);
+    }
+
+    let evals = AtomicU64::new(0);
+    let nontrivial = AtomicU64::new(0);
+    let mut per_fixture = vec![];
+    let mut samples = vec![];
+    let mut exhaustive = true;
+    let mut harmless: std::collections::BTreeSet<String> = Default::default();
+    let harmless_m = std::sync::Mutex::new(&mut harmless);
+
+    for fx in &fixtures {
+        // sanity of the proof set under correct metadata
+        let mut set_info = vec![];
+        let mut usable: Vec<&(String, Value, bool)> = vec![];
+        for p in &fx.proofs {
+            let v = (fx.verify_json)(&p.1);
+            set_info.push(json!({"proof": p.0, "invalid_trace": p.2, "verdict_correct_metadata": v.tag()}));
+            match (&v, p.2) {
+                (Verdict::Accept, false) => usable.push(p),
+                (Verdict::Reject(_), true) => usable.push(p),
+                (Verdict::Accept, true) => histo.add("invalid_trace_proof_accepted_under_correct_metadata(C04 matter, excluded)"),
+                (other, false) => vpcore::machinery_error(&format!("honest fixture proof of {} not accepted: {other:?}", fx.name)),
+                (Verdict::Panic(_), true) => usable.push(p),
+                _ => {}
+            }
+            // (d) serde round trips of the unaltered object
+            let pc = (fx.verify_postcard)(&p.1);
+            evals.fetch_add(1, Ordering::Relaxed);
+            if pc.tag().split(':').next() != v.tag().split(':').next() {
+                report.violation(format!("serde_roundtrip:postcard:{}", fx.name), format!("{}: json verdict {v:?}, after postcard round trip {pc:?}", p.0), json!({"fixture": fx.name, "proof": p.0, "alterations": []}));
+            }
+            let reser = serde_json::to_value(&p.1).unwrap();
+            if reser != p.1 {
+                vpcore::machinery_error("json value not stable");
+            }
+        }
+        if !usable.iter().any(|p| p.2) {
+            vpcore::machinery_error(&format!("fixture {} has no rejected invalid-trace proof", fx.name));
+        }
+        let honest_tree = &usable.iter().find(|p| !p.2).unwrap().1;
+        let alts = metadata_alts(honest_tree);
+        let n_alts = alts.len();
+        // singles on every proof of the set
+        let judge = |p: &(String, Value, bool), sel: &[&Alt]| {
+            let Some(t) = apply(&p.1, sel) else { return };
+            let v = (fx.verify_json)(&t);
+            evals.fetch_add(1, Ordering::Relaxed);
+            let desc: Vec<Value> = sel.iter().map(|a| json!({"path": a.path, "value": a.value, "kind": a.kind})).collect();
+            let classes: Vec<String> = sel.iter().map(|a| format!("{}[{}]", a.class, a.kind)).collect();
+            histo.add(&format!("{}/{}/{}", if p.2 { "invalid_trace" } else { "honest" }, sel.len(), v.tag().split(':').next().unwrap()));
+            let replay = json!({"fixture": fx.name, "proof": p.0, "alterations": desc});
+            match &v {
+                Verdict::NotAProof => return,
+                Verdict::Panic(m) => {
+                    // The statement of C16 has no no-panic clause: a panicking verifier does
+                    // not accept. Recorded as an observation (location histogram) only.
+                    let loc = m.rsplit('@').next().unwrap_or("").trim().to_string();
+                    let loc = loc.rsplit("/src/").next().unwrap_or(&loc).to_string();
+                    panics.add(&loc);
+                    nontrivial.fetch_add(1, Ordering::Relaxed);
+                    let _ = replay;
+                    return;
+                }
+                Verdict::Accept if p.2 => {
+                    report.violation(format!("invalid_trace_accepted:{}:{}", fx.name, classes.join("+")), format!("proof of an invalid trace ({}) verifies after metadata alteration {:?}", p.0, desc), replay);
+                    return;
+                }
+                Verdict::Accept => {
+                    if sel.iter().any(|a| is_field_param(&a.path)) {
+                        report.violation(format!("field_param_mismatch_accepted:{}", classes.join("+")), format!("{}: metadata contradicting the verifier's field parameters verifies: {:?}", fx.name, desc), replay);
+                    } else {
+                        harmless_m.lock().unwrap().insert(format!("{}:{}", fx.name, classes.join("+")));
+                    }
+                }
+                Verdict::Reject(_) => {
+                    nontrivial.fetch_add(1, Ordering::Relaxed);
+                }
+            }
+            // (d) on altered proofs that deserialise: postcard round trip keeps the verdict
+            if sel.len() == 1 {
+                let pc = (fx.verify_postcard)(&t);
+                evals.fetch_add(1, Ordering::Relaxed);
+                if pc.tag().split(':').next() != v.tag().split(':').next() {
+                    report.violation(format!("serde_roundtrip:postcard:{}", fx.name), format!("{} {:?}: json {v:?} vs postcard {pc:?}", p.0, classes), json!({"fixture": fx.name, "proof": p.0, "alterations": desc}));
+                }
+            }
+        };
+        let mut work: Vec<(usize, Vec<usize>)> = vec![];
+        for (pi, _) in usable.iter().enumerate() {
+            for ai in 0..n_alts {
+                work.push((pi, vec![ai]));
+            }
+        }
+        // pairs: every pair of alterations at different leaves — quick: pairs whose first member
+        // is a top-level scalar field; thorough: all pairs — on the honest and the first invalid proof
+        let core: Vec<usize> = (0..n_alts).filter(|&i| alts[i].path.matches('/').count() <= 2 && alts[i].kind == "set").collect();
+        let pair_proofs: Vec<usize> = usable.iter().enumerate().filter(|(_, p)| p.2).map(|(i, _)| i).take(if ctx.quick() { 1 } else { 2 }).collect();
+        let firsts: Vec<usize> = if ctx.quick() { core.clone() } else { (0..n_alts).collect() };
+        for &pi in &pair_proofs {
+            for &a in &firsts {
+                for b in 0..n_alts {
+                    if ctx.quick() && !core.contains(&b) && b % 4 != 0 {
+                        continue; // quick: core x (core + every 4th alteration)
+                    }
+                    if alts[b].path != alts[a].path && (ctx.quick() || a < b) {
+                        work.push((pi, vec![a, b]));
+                    }
+                }
+            }
+        }
+        let total = work.len();
+        let done = AtomicU64::new(0);
+        work.par_iter().for_each(|(pi, sel)| {
+            if ctx.used() > 0.93 {
+                return;
+            }
+            let refs: Vec<&Alt> = sel.iter().map(|i| &alts[*i]).collect();
+            judge(usable[*pi], &refs);
+            done.fetch_add(1, Ordering::Relaxed);
+        });
+        let d = done.load(Ordering::Relaxed) as usize;
+        exhaustive &= d == total;
+        per_fixture.push(json!({"fixture": fx.name, "proof_set": set_info, "metadata_alterations": n_alts, "cases_planned": total, "cases_done": d}));
+        if samples.len() < 6 {
+            for a in alts.iter().step_by((n_alts / 3).max(1)).take(3) {
+                samples.push(json!({"fixture": fx.name, "path": a.path, "new_value": a.value, "kind": a.kind}));
+            }
+        }
+        eprintln!("[C16] {} alterations={} cases={}/{} t={:.1}s", fx.name, n_alts, d, total, ctx.elapsed_s());
+    }
+    drop(harmless_m);
+    let cov = json!({
+        "evaluations": evals.load(Ordering::Relaxed),
+        "distinct_nontrivial": nontrivial.load(Ordering::Relaxed),
+        "rule": "a case = one proof of the set with one or two metadata leaves altered to another value of the leaf's small domain (numbers: 0,1,2,3,4,5,6,8,16,n±1,2n,null; booleans flipped; enum strings: every other string occurring in the metadata; null<->number; lists of tables/instances: drop/duplicate/swap), deserialised and verified; non-trivial = the altered proof deserialises and is rejected",
+        "samples": samples,
+        "fixtures": per_fixture,
+        "exhaustive": exhaustive,
+        "verdict_histogram(proof kind/number of alterations/verdict)": histo.to_json(),
+        "verifier_panics_by_location(observation, counted as rejection)": panics.to_json(),
+        "honest_proof_still_accepted_after_alteration_of": harmless.iter().cloned().collect::<Vec<_>>(),
+    });
+    finish(
+        &ctx,
+        cov,
+        vec![
+            "invalid-trace proofs are produced by the real prover from a trace with one deviated cell (H4 hook) and are rejected under correct metadata; soundness of the STARK is assumed".into(),
+            "alterations are those of a GIVEN proof (the statement's letter); a prover re-proving under other metadata is C04's subject".into(),
+        ],
+        &report,
+    );
 }
